@@ -46,13 +46,19 @@ Definition set_cp (l : lstate) (c : cpc) : lstate :=
 Definition create (l : lstate) (m : Z) (gs : bool) (r : list lop) : lstate :=
   mkl (mkst true false 0 (thrs (bar l))) m (epis l) true (gmode l) gs CNext r (uaf l).
 
-(* while (b->blockers > 0) qthread_yield();   blockers is unsigned *)
-Definition destroy_check (l : lstate) : lstate :=
-  set_cp l (if blockers (bar l) =? 0 then CFillOut else CYield).
+(* the exit condition of the wait loop of qt_barrier_destroy is a parameter of the machine:
+     chk_code   while (b->blockers > 0) qthread_yield();      (blockers is unsigned: > 0 is <> 0)  -- the code as it is
+     chk_fixed  while (b->blockers > 0 || !qthread_feb_status(&b->in_gate)) qthread_yield();       -- the proposed repair
+   (docs/proposed_fixes/C11-destroy-last-leaver.diff; only used in theorems about the repair, never in the tie) *)
+Definition chk_code (l : lstate) : bool := blockers (bar l) =? 0.
+Definition chk_fixed (l : lstate) : bool := (blockers (bar l) =? 0) && in_full (bar l).
+
+Definition destroy_checkG (chk : lstate -> bool) (l : lstate) : lstate :=
+  set_cp l (if chk l then CFillOut else CYield).
 
 Definition is_call (t : thr) : bool := match t_pc t with PCall => true | _ => false end.
 
-Definition cstep (l : lstate) : option lstate :=
+Definition cstepG (chk : lstate -> bool) (l : lstate) : option lstate :=
   let b := bar l in
   match cp l with
   | CNext =>
@@ -68,10 +74,10 @@ Definition cstep (l : lstate) : option lstate :=
     | LCreate m :: r => if all_done (epis l) b then Some (create l m (gset l) r) else None
     | LGInit m :: r => if gset l then Some (set_script l r)
                        else if all_done (epis l) b then Some (create l m true r) else None
-    | LDestroy :: _ => Some (destroy_check l)
-    | LGDestroy :: r => if gset l then Some (destroy_check l) else Some (set_script l r)
+    | LDestroy :: _ => Some (destroy_checkG chk l)
+    | LGDestroy :: r => if gset l then Some (destroy_checkG chk l) else Some (set_script l r)
     end
-  | CYield => Some (destroy_check l)
+  | CYield => Some (destroy_checkG chk l)
   | CFillOut => Some (mkl (mkst (in_full b) true (blockers b) (map rel_out (thrs b))) (maxb l) (epis l) (alive l) (gmode l) (gset l)
                           CFillIn (script l) (uaf l))
   | CFillIn => Some (mkl (mkst true (out_full b) (blockers b) (map rel_in (thrs b))) (maxb l) (epis l) (alive l) (gmode l) (gset l)
@@ -102,11 +108,18 @@ Definition pstep (l : lstate) (i : nat) : option lstate :=
 
 Definition nthr (l : lstate) : nat := length (thrs (bar l)).
 
-Definition lstep (l : lstate) (i : nat) : option lstate :=
-  if (i <? nthr l)%nat then pstep l i else if (i =? nthr l)%nat then cstep l else None.
+Definition lstepG (chk : lstate -> bool) (l : lstate) (i : nat) : option lstate :=
+  if (i <? nthr l)%nat then pstep l i else if (i =? nthr l)%nat then cstepG chk l else None.
 
-Definition lstep_or_stay (l : lstate) (i : nat) : lstate := match lstep l i with Some l' => l' | None => l end.
-Definition lexec (l : lstate) (sched : list nat) : lstate := fold_left lstep_or_stay sched l.
+Definition lstepG_or_stay (chk : lstate -> bool) (l : lstate) (i : nat) : lstate :=
+  match lstepG chk l i with Some l' => l' | None => l end.
+Definition lexecG (chk : lstate -> bool) (l : lstate) (sched : list nat) : lstate := fold_left (lstepG_or_stay chk) sched l.
+
+(* the machine of the code as it is (the one that is extracted and tied to the working tree) *)
+Definition destroy_check : lstate -> lstate := destroy_checkG chk_code.
+Definition cstep : lstate -> option lstate := cstepG chk_code.
+Definition lstep : lstate -> nat -> option lstate := lstepG chk_code.
+Definition lexec : lstate -> list nat -> lstate := lexecG chk_code.
 
 Definition lenabled (l : lstate) (i : nat) : bool := match lstep l i with Some _ => true | None => false end.
 Definition lenabled_list (l : lstate) : list nat := filter (lenabled l) (seq 0 (S (nthr l))).
